@@ -1,5 +1,6 @@
 (** Lemmas about the tree representation of [FS/Tree.v]. *)
-From Wharf Require Import Base.Prelude FS.Tree.
+From Coq Require Import Arith Lia.
+From Wharf Require Import FS.Light FS.Tree.
 
 Lemma path_eqb_eq : forall p q, path_eqb p q = true <-> p = q.
 Proof.
